@@ -17,7 +17,7 @@ COQ = os.path.join(VERIF, "coq")
 BUILD = os.path.join(VERIF, "build")
 DRIVER = os.path.join(BUILD, "driver")
 EVIDENCE = os.environ.get("VERIF_EVIDENCE") or (os.path.join(VERIF, "evidence") if REPO == "/repo" else "/tmp/verif-evidence-scratch")
-REPLAYS = os.path.join(VERIF, "replays")
+REPLAYS = os.environ.get("VERIF_REPLAYS") or (os.path.join(VERIF, "replays") if REPO == "/repo" else "/tmp/verif-replays-scratch")
 
 ALLOWED_AXIOMS = {
     # standard-library axioms that a library may bring in; each use is named in the evidence
